@@ -55,7 +55,7 @@ Section C09.
 
   Theorem C09_nonzero_rejects : forall path dsse w i r acc tr l w1,
     run_insp dsse w i = Ok (l, w1) -> retval_zero l = false ->
-    run_inspections path dsse w (i :: r) acc tr = (Err e_retval, tr ++ [EvRunInspection path (i_name i)]).
+    run_inspections path dsse w (i :: r) acc tr = (Err e_retval, tr ++ insp_event path i).
   Proof. intros. eapply run_inspections_fail_retval; eassumption. Qed.
 
   (* no inspection of this level is executed unless all step checks of this level have passed *)
